@@ -530,6 +530,31 @@ func (x *Explorer) stepStore(st *State, v *ssa.Store) {
 				}
 			}
 		}
+		// the settings pointer just stored is what the next load of that field of that object yields
+		if sv := structOf(n); sv != nil && sv.Field(ad.Field) == a.SchAsync {
+			switch v.Val.(type) {
+			case *ssa.Const, *ssa.Global:
+			default:
+				if _, isConst := ad.X.(*ssa.Const); !isConst {
+					base := st.symOf(ad.X)
+					if _, ok := st.env[vkey{st.depth(), ad.X}]; !ok {
+						st.env[vkey{st.depth(), ad.X}] = base
+						if _, ok := st.facts[base]; !ok {
+							st.facts[base] = Fact{}
+						}
+					}
+					vs := st.symOf(v.Val)
+					if _, ok := st.facts[vs]; !ok {
+						st.facts[vs] = Fact{}
+					}
+					st.env[vkey{st.depth(), v.Val}] = vs
+					if st.memo == nil {
+						st.memo = map[memoKey]Sym{}
+					}
+					st.memo[memoKey{base, sv.Field(ad.Field)}] = vs
+				}
+			}
+		}
 		if s := structOf(n); s != nil {
 			f := s.Field(ad.Field)
 			switch {
@@ -539,7 +564,12 @@ func (x *Explorer) stepStore(st *State, v *ssa.Store) {
 					x.L.Event(x, st, &Event{Kind: EvIdxContainerStore, Instr: v, Tags: bt, VTags: vt, Struct: n, Field: f})
 				}
 			case (n == a.Async && f.Exported()) || (n == a.Schema && (f == a.SchCache || f == a.SchAsync)):
-				x.emit(st, &Event{Kind: EvEffect, Eff: ECfgW, Instr: v, Tags: bt, Struct: n, Field: f})
+				// settings of a schema that is still private to this call (the caller's value, a freshly decoded one)
+				// are not observable state yet: only a write to a possibly published schema is a settings mutation
+				if bt&(TFresh|TDecoded) != 0 && bt&TFromTbl == 0 && n == a.Schema {
+					break
+				}
+				x.emit(st, &Event{Kind: EvEffect, Eff: ECfgW, Instr: v, Tags: bt, VTags: vt, VNil: st.factOf(v.Val).Nil, Struct: n, Field: f})
 			}
 		}
 	case *ssa.IndexAddr:
